@@ -240,10 +240,12 @@ int simk_socket(int domain, int type, int protocol) {
 }
 
 int simk_fcntl(int fd, int cmd, ...) {
-  sc_enter(SC_FCNTL);
+  int n = sc_enter(SC_FCNTL);
   va_list ap; va_start(ap, cmd); long arg = va_arg(ap, long); va_end(ap);
   FdEnt *e = fd_get(fd);
   if (!e) { errno = EBADF; return -1; }
+  int ferr = cur() ? want_fail(SC_FCNTL, n) : 0;
+  if (ferr) { errno = ferr; return -1; }
   switch (cmd) {
   case F_GETFD: return e->cloexec ? FD_CLOEXEC : 0;
   case F_SETFD: e->cloexec = arg & FD_CLOEXEC; return 0;
@@ -271,9 +273,10 @@ int simk_setsockopt(int fd, int level, int opt, const void *val, socklen_t len) 
   }
 }
 int simk_getsockopt(int fd, int level, int opt, void *val, socklen_t *len) {
-  sc_enter(SC_GETSOCKOPT);
+  int n = sc_enter(SC_GETSOCKOPT);
   int err = 0; SockObj *s = cur_sock(fd, &err);
   if (!s) { errno = err; return -1; }
+  if ((err = want_fail(SC_GETSOCKOPT, n))) { errno = err; return -1; }
   if (level != SOL_SOCKET) { errno = ENOPROTOOPT; return -1; }
   int v;
   switch (opt) {
@@ -291,9 +294,10 @@ int simk_getsockopt(int fd, int level, int opt, void *val, socklen_t *len) {
   return 0;
 }
 int simk_getsockname(int fd, struct sockaddr *sa, socklen_t *len) {
-  sc_enter(SC_GETSOCKNAME);
+  int n = sc_enter(SC_GETSOCKNAME);
   int err = 0; SockObj *s = cur_sock(fd, &err);
   if (!s) { errno = err; return -1; }
+  if ((err = want_fail(SC_GETSOCKNAME, n))) { errno = err; return -1; }
   NAddr a = s->local;
   if (!s->bound) { a = NAddr(); a.family = s->domain; }
   to_sockaddr(a, sa, len);
